@@ -21,7 +21,14 @@ Outcome ==
      ListOf(Nos(DOMAIN pos[PID]), LAMBDA n : << n, Net(pos[PID][AssetSeq[n]]) >>),
      \* target-allocation table: for each equity date the number of the latest allocation record dated on or
      \* before it (0 = none yet: the row is undefined)
-     [i \in 1..Len(curve) |-> Cardinality({ j \in 1..Len(allocs) : allocs[j].t <= curve[i].t })] >>
+     [i \in 1..Len(curve) |-> Cardinality({ j \in 1..Len(allocs) : allocs[j].t <= curve[i].t })],
+     \* C16 (cadence): what each asset's signals must have been fed - one observation per market close already
+     \* processed at which the asset belongs to the universe: that close's quote (0 = NaN)
+     [n \in 1..Len(AssetSeq) |->
+        LET cl == SelectSeq(events, LAMBDA e : e.k = 2 /\ (ek > Len(events) \/ e.t < Ev.t \/ (e.t = Ev.t /\ (pc \in {"rebalance", "exec", "execupd", "equity"}
+                                                                                             \/ (pc = "failed" /\ allocs # << >> /\ allocs[Len(allocs)].t = Ev.t))))
+                                                /\ AssetSeq[n] \in UniverseAt(e.t))
+        IN  [i \in 1..Len(cl) |-> << cl[i].t, QuoteAt(frame[AssetSeq[n]], cl[i].t) >>]] >>
 
 Report == pc \in {"done", "failed"} => PrintT(Outcome)
 =============================================================================
